@@ -32,11 +32,21 @@ shared = sum(lines_of(f) for f in glob.glob(os.path.join(V, "lean/OQ/Exec/*.lean
 out.append(f"| total | {tot[0]} | | {tot[1]} / {tot[2]} / {tot[3]} (+ {shared} shared backbone) | {tot[4]} |")
 t1 = "\n".join(out)
 
-out = ["| seeded change | property | what it breaks | what it needs to manifest |", "|----|----|----|----|"]
+status = {}
+lr = os.path.join(V, "seeded", "LAST_RUN.txt")
+if os.path.exists(lr):
+    for ln in open(lr):
+        mm = re.match(r"(DETECTED|MISSED) (\S+) ", ln)
+        if mm:
+            status[mm.group(2)] = ("detected, concrete failing input" if mm.group(1) == "DETECTED" and "no-failing-input-found" not in ln
+                                   else "detected (no-failing-input-found)" if mm.group(1) == "DETECTED" else "MISSED")
+out = ["| seeded change | property | what it breaks | quick tier of the property's check (seeded/LAST_RUN.txt) |", "|----|----|----|----|"]
 for d in sorted(glob.glob(os.path.join(V, "seeded/*/meta.json"))):
     m = json.load(open(d))
     name = os.path.basename(os.path.dirname(d))
-    out.append(f"| {name} | {m['property']} | {m['breaks']} | {m['needs']} |")
+    br = re.sub(r"\s+", " ", m['breaks']).replace("|", "/")
+    br = br if len(br) <= 260 else br[:257] + "…"
+    out.append(f"| {name} | {m['property']} | {br} | {status.get(name, 'not run')} |")
 t2 = "\n".join(out)
 
 known, fixed = common.load_known()
